@@ -179,6 +179,7 @@ func init() {
 		autow := atoi(m["auto"], 1) != 0
 		maxw := atoi(m["maxw"], 0)              // max writes per transaction (0: unlimited)
 		deflevel := atoi(m["deflevel"], 0) != 0 // also Begin() without a level
+		create := atoi(m["create"], 0) != 0     // writes also through SetReader and Create (several Write calls)
 		keys := keyNames[:nk]
 		f := &seq.Family{Opt: seq.Options{Slots: slots, ObsKeys: append(append([]string{}, keys...), neverKey), Spec: spec()}}
 		if m["obs"] == "auto" {
@@ -208,6 +209,9 @@ func init() {
 				if maxw == 0 || nw < maxw {
 					for _, k := range keys {
 						out = append(out, seq.Op{Kind: seq.Set, Actor: s, Key: k}, seq.Op{Kind: seq.Delete, Actor: s, Key: k})
+						if create {
+							out = append(out, seq.Op{Kind: seq.Create, Actor: s, Key: k, Split: []int{3, 5}}, seq.Op{Kind: seq.SetReader, Actor: s, Key: k})
+						}
 					}
 				}
 				out = append(out, seq.Op{Kind: seq.Commit, Actor: s}, seq.Op{Kind: seq.Rollback, Actor: s})
